@@ -89,6 +89,13 @@ Definition same_key (a b : option key_info) : bool :=
   | _, _ => false
   end.
 
+(* time.Duration(secs) * time.Second: int64 nanoseconds, wrapping silently; the entry's
+   expiry is now + that many nanoseconds.  In whole seconds (clock readings are compared at
+   whole seconds): floor of the wrapped nanosecond count / 10^9.  The identity for
+   |secs| < 2^63 / 10^9 (about 292 years). *)
+Definition wrap64 (z : Z) : Z := (z + 2 ^ 63) mod 2 ^ 64 - 2 ^ 63.
+Definition go_secs (secs : Z) : Z := wrap64 (secs * 1000000000) / 1000000000.
+
 (* ---- the two maps ------------------------------------------------------ *)
 Definition id_is (id : str) (e : entry) : bool := bytes_eqb (e_id e) id.
 Definition find_sess (id : str) (l : list entry) : option entry := find (id_is id) l.
@@ -243,7 +250,7 @@ Definition client_entry (now : Z) (tag addr : str) (r : full_ok) : entry :=
                 p_authmethods := Some (f_authmethods r); p_crypto := Some (f_crypto r);
                 p_client_side := Some true |} in
   {| e_id := f_sid r; e_addr := addr; e_tag := tag; e_key := f_key r;
-     e_policy := Some pol; e_exp := Some (now + dur); e_lease := lease |}.
+     e_policy := Some pol; e_exp := Some (now + go_secs dur); e_lease := go_secs lease |}.
 (* if ValidCommands != "" { strings.Split(ValidCommands, ",") } *)
 Definition raw_cmds (valid : str) : list str :=
   match valid with [] => [] | v => split_commas v end.
